@@ -286,6 +286,53 @@ theorem wait_at_least_backoff (cfg : Cfg) (sc : Script) (i : Nat) (a b : Attempt
 example : (retry exCfg (exScript 9 fun _ => .timer 0)).attempts.map (fun a => (a.start, a.stop)) =
     [(0, 5), (1007, 1012), (2513, 2518), (4769, 4774)] := by decide
 
+/-- **the property's own formula** (integer multiplier, InitialInterval ≤ MaxInterval): the time `g` between the end of
+    call i and the start of call i+1 (the (i+1)-th retry) satisfies
+    `g + 1 > min(InitialInterval · Multiplier^i, MaxInterval) · (1 − RandomizationFactor)` – the `+ 1` is the ns truncation of
+    `getRandomValueFromInterval` -/
+theorem wait_at_least_configured_backoff (cfg : Cfg) (sc : Script) (hq : cfg.mulD = 1) (hp : 1 ≤ cfg.mulN)
+    (hi : cfg.init ≤ cfg.maxInt) (hb : 0 < cfg.rfD) (i g : Nat) (a b : Attempt)
+    (ha : (retry cfg sc).attempts[i]? = some a) (hb' : (retry cfg sc).attempts[i + 1]? = some b) (hg : b.start = a.stop + g) :
+    min (cfg.init * cfg.mulN ^ i) cfg.maxInt * (cfg.rfD - cfg.rfN) < (g + 1) * cfg.rfD := by
+  have h1 := (wait_at_least_backoff cfg sc i a b ha hb').1
+  rw [← interval_closed_form cfg hq hp hi i]
+  unfold lowEnd at h1
+  have h2 : curAt cfg i * (cfg.rfD - cfg.rfN) < curAt cfg i * (cfg.rfD - cfg.rfN) / cfg.rfD * cfg.rfD + cfg.rfD :=
+    Nat.lt_div_mul_add hb
+  have h3 : curAt cfg i * (cfg.rfD - cfg.rfN) / cfg.rfD * cfg.rfD ≤ g * cfg.rfD := Nat.mul_le_mul_right _ (by omega)
+  rw [Nat.add_mul]
+  omega
+
+/-- the same for a fractional multiplier `p/q ≥ 1`, scaled by `q^i`, with the library's accumulated truncation `truncSlack` -/
+theorem wait_at_least_configured_backoff_frac (cfg : Cfg) (sc : Script) (hq : 1 ≤ cfg.mulD) (hpq : cfg.mulD ≤ cfg.mulN)
+    (hb : 0 < cfg.rfD) (i g : Nat) (a b : Attempt)
+    (ha : (retry cfg sc).attempts[i]? = some a) (hb' : (retry cfg sc).attempts[i + 1]? = some b) (hg : b.start = a.stop + g) :
+    min (cfg.init * cfg.mulN ^ i) (cfg.maxInt * cfg.mulD ^ i) * (cfg.rfD - cfg.rfN) <
+      (g + 1) * cfg.mulD ^ i * cfg.rfD + truncSlack cfg i * cfg.rfD := by
+  have h1 := (wait_at_least_backoff cfg sc i a b ha hb').1
+  have hlow := curAt_lower cfg hq hpq i
+  unfold lowEnd at h1
+  generalize curAt cfg i = c at *
+  generalize min (cfg.init * cfg.mulN ^ i) (cfg.maxInt * cfg.mulD ^ i) = m at *
+  have hqi : 0 < cfg.mulD ^ i := Nat.pow_pos (by omega)
+  generalize cfg.mulD ^ i = Q at *
+  generalize truncSlack cfg i = S at *
+  have h2 : c * (cfg.rfD - cfg.rfN) < c * (cfg.rfD - cfg.rfN) / cfg.rfD * cfg.rfD + cfg.rfD := Nat.lt_div_mul_add hb
+  have h3 : c * (cfg.rfD - cfg.rfN) / cfg.rfD * cfg.rfD ≤ g * cfg.rfD := Nat.mul_le_mul_right _ (by omega)
+  have hd : cfg.rfD - cfg.rfN ≤ cfg.rfD := Nat.sub_le _ _
+  generalize cfg.rfD - cfg.rfN = d at *
+  -- m·d ≤ (c·Q + S)·d = (c·d)·Q + S·d,  c·d < (g+1)·rfD
+  have h4 : m * d ≤ (c * Q + S) * d := Nat.mul_le_mul_right _ hlow
+  have h5 : c * d + 1 ≤ (g + 1) * cfg.rfD := by rw [Nat.add_mul]; omega
+  have h6 : (c * d + 1) * Q ≤ (g + 1) * cfg.rfD * Q := Nat.mul_le_mul_right _ h5
+  have e1 : (c * Q + S) * d = c * d * Q + S * d := by grind
+  have e2 : (c * d + 1) * Q = c * d * Q + Q := by grind
+  have e3 : (g + 1) * cfg.rfD * Q = (g + 1) * Q * cfg.rfD := by grind
+  have h7 : S * d ≤ S * cfg.rfD := Nat.mul_le_mul_left _ hd
+  rw [e1] at h4
+  rw [e2, e3] at h6
+  omega
+
 /-- **the reported delay lies in the jitter interval** `[⌊cur_n(1−rf)⌋, ⌊cur_n(1+rf)⌋ + 1]` of the n-th interval
     (for draws in [0,1) and 0 ≤ rf ≤ 1) -/
 theorem reported_delay_in_interval (cfg : Cfg) (sc : Script) (n d : Nat) (h : (n, d) ∈ (retry cfg sc).hooks)
